@@ -39,6 +39,7 @@ type Worker struct {
 	Stats Stats
 	intr  map[string]intrinsic
 
+	crossN      int
 	executed    map[*ssa.Function]bool
 	covered     map[string]bool
 	Obligations map[string]int
